@@ -52,13 +52,17 @@ RECORD_TYPES = {
 }
 
 
-class EnumVal(object):
-    __slots__ = ("cls", "name", "value")
+ENUM_MODULES = {"ImageMode": "toasty.image", "ToastCoordinateSystem": "toasty.toast", "TilingMethod": "toasty"}
 
-    def __init__(self, cls, name, value=None):
+
+class EnumVal(object):
+    __slots__ = ("cls", "name", "value", "mod")
+
+    def __init__(self, cls, name, value=None, mod=None):
         self.cls = cls
         self.name = name
         self.value = value
+        self.mod = mod or ENUM_MODULES.get(cls)
 
     def __eq__(self, other):
         return isinstance(other, EnumVal) and (self.cls, self.name) == (other.cls, other.name)
